@@ -125,8 +125,9 @@ def names(p):
     raise MachineryError(f"pattern {p}")
 
 
-HY_GUARD = {"T": "True", "F": "False", "stmt-T": "(do (setv hyv-g 1) True)", "stmt-F": "(do (setv hyv-g 1) False)", "x1": "(= x 1)"}
-PY_GUARD = {"T": "True", "F": "False", "stmt-T": "True", "stmt-F": "False", "x1": "x == 1"}
+HY_GUARD = {"T": "True", "F": "False", "stmt-T": "(do (setv hyv-g 1) True)", "stmt-F": "(do (setv hyv-g 1) False)", "x1": "(= x 1)",
+            "stmt-x1": "(do (setv hyv-g 1) (= x 1))"}
+PY_GUARD = {"T": "True", "F": "False", "stmt-T": "True", "stmt-F": "False", "x1": "x == 1", "stmt-x1": "x == 1"}
 
 
 def hy_program(prog, scope):
@@ -139,6 +140,8 @@ def hy_program(prog, scope):
     m = f"(match {hy_val(prog['subject'])}\n" + "\n".join(cases) + ")"
     if scope == "fn":
         return f"(defn hyv-f []\n (setv r {m})\n r)\n(setv R (hyv-f))"
+    if scope == "class":
+        return f"(defclass hyv-K []\n (setv r {m}))\n(setv R hyv-K.r)"
     return f"(setv R {m})"
 
 
@@ -239,7 +242,8 @@ def strip(o):
 
 def _one(rec):
     prog = {"subject": rec["subject"], "cases": rec["cases"]}
-    return run_py(py_program(prog)), run_hy(hy_program(prog, "module")), run_hy(hy_program(prog, "fn"))
+    return (run_py(py_program(prog)), run_hy(hy_program(prog, "module")), run_hy(hy_program(prog, "fn")),
+            run_hy(hy_program(prog, "class")))
 
 
 # ---------------------------------------------------------------- generated programs (file mode)
@@ -366,8 +370,8 @@ def gen_programs(rng, n):
         cases = []
         for _ in range(ncases):
             p = gen_pat(rng, rng.choice([1, 2, 2, 3]), set())
-            g = rng.choice(["none", "none", "none", "T", "F", "stmt-T", "stmt-F", "x1"])
-            if g == "x1" and "x" not in names(p):
+            g = rng.choice(["none", "none", "none", "T", "F", "stmt-T", "stmt-F", "x1", "stmt-x1"])
+            if g in ("x1", "stmt-x1") and "x" not in names(p):
                 g = "stmt-T"
             cases.append({"pat": p, "guard": g})
         subject = value_for(rng, rng.choice(cases)["pat"])
@@ -400,7 +404,7 @@ def main(run):
     rows += rows2
     run.log(f"TLC: {len(rows)} programs")
     kinds = {}
-    for rec, (py, hm, hf) in zip(rows, pmap(_one, rows)):
+    for rec, (py, hm, hf, hc) in zip(rows, pmap(_one, rows)):
         want = spec_out(rec)
         prog = {"subject": rec["subject"], "cases": rec["cases"]}
         key = json.dumps(prog, sort_keys=True)
@@ -408,7 +412,7 @@ def main(run):
         kinds[want["kind"]] = kinds.get(want["kind"], 0) + 1
         if strip(py) != want:
             raise MachineryError(f"HyMatch disagrees with CPython's match statement:\n{py_program(prog)}CPython: {py}\nspec: {want}")
-        for scope, got in (("module", hm), ("fn", hf)):
+        for scope, got in (("module", hm), ("fn", hf), ("class", hc)):
             if strip(got) != want:
                 text = hy_program(prog, scope)
                 run.violation(f"{scope}:{key}", f"Hy match ({scope} scope) gives {got}; the equivalent Python match statement "
@@ -421,6 +425,6 @@ def main(run):
     run.sample({"hy": hy_program(progs[0], "module"), "python": py_program(progs[0])})
     return run.finish("model_checking",
                       "HyMatch is PEP 634 in TLA+ (matching, bindings, compile-time restrictions); every program is first run as a "
-                      "Python match statement by CPython to validate the spec, then as a Hy match form at module level and inside "
+                      "Python match statement by CPython to validate the spec, then as a Hy match form at module level, in a class body and inside "
                       "a function: case taken, bound names and values, None when nothing matches, TypeError / SyntaxError "
                       "outcomes, guards (also guards that compile to statements)", extra={"expected_kinds": kinds})
